@@ -2376,6 +2376,9 @@ class Walker:
             if fn in (("mod", "numpy.asarray"), ("mod", "numpy.asanyarray"), ("mod", "numpy.float64")) and (
                     not kwargs or kwargs == (("dtype", ("mod", "numpy.float64")),) or kwargs == (("dtype", ("builtin", "float")),)):
                 return args[0]
+        # bool(<comparison>) is the comparison
+        if fn == ("builtin", "bool") and len(args) == 1 and not kwargs and args[0][0] in ("cmp", "and", "or", "not"):
+            return args[0]
         # setattr(obj, "name", v) is obj.name = v
         if fn == ("builtin", "setattr") and len(args) == 3 and not kwargs and args[1][0] == "const" and isinstance(args[1][1], str):
             tgt = ("attr", args[0], args[1][1])
